@@ -814,6 +814,8 @@ impl<'a> Gen<'a> {
             let v = match *name {
                 "e" => "[]".to_string(),
                 "eo" => "{}".to_string(),
+                // the only paths allowed to decide an allocation size: always small
+                "i" | "j" => self.tape.pick_s(&["0", "1", "2", "3", "4", "5", "7", "1.0", "2.5", "-1"]).to_string(),
                 _ => self.lit(k, 2),
             };
             items.push(format!("\"{}\":{}", name, v));
